@@ -11,6 +11,7 @@ from sa.source import class_assigns
 from sa.props._lib_d import (NONNULL, call_nodes, calls_with, const_value_is, handler_names, implied, local_def, path_under, peval,
                              reach_under, self_assigns, slice_parts, succ_of, test_value)
 from sa.props._lib_d import must_pass_under as _must_pass_under
+from sa.props._lib_d import Views
 from sa.props._lib_d import MiniVM, VMError, VMRaise, VMStub, _NativeRaise
 from sa.source import AnalysisError
 
@@ -43,6 +44,28 @@ ASSUMPTIONS = [
 ]
 Q = "twisted.protocols.haproxy."
 QW = Q + "_wrapper.HAProxyProtocolWrapper."
+
+# methods the rules are written against; any other private method of these classes is a helper introduced later and is analysed as
+# if inlined at its call sites (sa.props._lib_d.Inliner / Views)
+KNOWN = {'protocols/haproxy/_v1parser.py': {'V1Parser': ['__init__', 'feed', 'parse']},
+ 'protocols/haproxy/_v2parser.py': {'V2Parser': ['__init__', '_bytesToIPv4', '_bytesToIPv6', 'feed', 'parse']},
+ 'protocols/haproxy/_wrapper.py': {'HAProxyProtocolWrapper': ['__init__', 'dataReceived', 'getHost', 'getPeer']}}
+
+
+def _views(ctx):
+    v = ctx.__dict__.get("_views_d")
+    if v is None:
+        v = ctx.__dict__["_views_d"] = Views(ctx, KNOWN)
+    return v
+
+
+def _F(ctx, rel, qual):
+    return _views(ctx).f(rel, qual)
+
+
+def _M(ctx, rel, cls_name):
+    return _views(ctx).methods(rel, cls_name)
+
 
 V1_SAMPLES = {
     "TCP4": b"PROXY TCP4 192.0.2.1 198.51.100.7 56324 443\r\n",
@@ -187,7 +210,7 @@ def check(ctx):
         ctx.need(bool(K), "V1Parser / V2Parser constants")
         wfacts = {"V2Parser.PREFIX": K["V2Parser.PREFIX"], "V1Parser.PROXYSTR": K["V1Parser.PROXYSTR"]}
         # the first segment meets the object as __init__ left it
-        init = ctx.func(W, "HAProxyProtocolWrapper.__init__")
+        init = _F(ctx, W, "HAProxyProtocolWrapper.__init__")
         for st in walk_local(init):
             tgt = st.targets[0] if isinstance(st, ast.Assign) and len(st.targets) == 1 else (st.target if isinstance(st, ast.AnnAssign) and st.value is not None else None)
             if tgt is not None and isinstance(tgt, ast.Attribute) and src(tgt.value) == "self":
@@ -200,7 +223,7 @@ def check(ctx):
         ctx.need(wfacts.get("self._proxyInfo", 0) is None and wfacts.get("self._parser", 0) is None, "__init__ sets _proxyInfo = None and _parser = None")
 
         # ================= (a) sniffing, evaluated on concrete first segments =====================================================
-        f = ctx.func(W, "HAProxyProtocolWrapper.dataReceived")
+        f = _F(ctx, W, "HAProxyProtocolWrapper.dataReceived")
         g = ctx.cfg(f)
         q = QW + "dataReceived"
         dparam = f.args.args[1].arg
@@ -309,17 +332,20 @@ def check(ctx):
                 st = g.node(n).ast
                 tgs = [src(t) for t in st.targets]
                 later = self_assigns(g, "_parser")
-                ok = "self._parser" in tgs or (later and g.must_pass([n], later, to=fd + [g.exit]) is None)
+                made = {t: NONNULL for t in tgs}      # the freshly built parser object, under whatever local name
+                ok = "self._parser" in tgs or (bool(later) and must_pass_under(g, made, later, srcs=succ_of(g, n, None), to=fd + [g.exit]) is None)
                 ctx.check(ok, "wrapper/parser-kept-across-segments", ctx.construct(q, st),
                           "the parser chosen for the first segment is not stored in self._parser: the rest of a segmented header is sniffed as if it were a new stream")
         acc = class_accesses(ctx.mod(W), ctx.cls(W, "HAProxyProtocolWrapper"), {"_proxyInfo"}, {"self"})
         for a in acc:
-            ok = a.func.endswith(".__init__") or (a.func.endswith(".dataReceived") and any(a.node is g.node(n).ast for n in fd))
+            inl_ = _views(ctx).inliner(W)
+            fn_ = a.func.split(".")[-1]
+            ok = inl_.permitted(fn_, {"__init__"}) or (inl_.permitted(fn_, {"dataReceived"}) and any(src(a.node) == src(g.node(n).ast) for n in fd))
             ctx.check(ok, "wrapper/proxyinfo-who-may-write", ctx.construct(Q + "_wrapper." + a.func, a.node), "_proxyInfo is set from something other than the parser's result")
     with ctx.section("getPeer/getHost"):
         # ---- sec: getPeer getHost
         for meth, attr in (("getPeer", "source"), ("getHost", "destination")):
-            fm = ctx.func(W, f"HAProxyProtocolWrapper.{meth}")
+            fm = _F(ctx, W, f"HAProxyProtocolWrapper.{meth}")
             gm = ctx.cfg(fm)
             rets = [x for x in gm.nodes if x.kind == "stmt" and gm.reachable(x.id) and isinstance(x.ast, ast.Return) and x.ast.value is not None]
             pr = [x for x in rets if src(x.ast.value).startswith("self._proxyInfo.")]
@@ -332,7 +358,7 @@ def check(ctx):
     with ctx.section("V1Parser.feed"):
         ctx.need(bool(K), "V1Parser / V2Parser constants")
         # ================= (a') the parsers' feed(), evaluated on concrete segmentations =================================================
-        f1 = ctx.func(V1, "V1Parser.feed")
+        f1 = _F(ctx, V1, "V1Parser.feed")
         g1 = ctx.cfg(f1)
         q1 = Q + "_v1parser.V1Parser.feed"
         d1 = f1.args.args[1].arg
@@ -399,7 +425,7 @@ def check(ctx):
         ctx.need(bool(K), "V1Parser / V2Parser constants")
         ctx.need(bool(wr), "anchors of HAProxyProtocolWrapper.dataReceived")
         # ---- sec: V2Parser.feed
-        f2 = ctx.func(V2, "V2Parser.feed")
+        f2 = _F(ctx, V2, "V2Parser.feed")
         g2 = ctx.cfg(f2)
         q2 = Q + "_v2parser.V2Parser.feed"
         d2 = f2.args.args[1].arg
@@ -481,7 +507,7 @@ def check(ctx):
         ctx.floor("v2table/address-formats", len(fmts), 3)
     with ctx.section("V2Parser.parse address block"):
         # ---- sec: v2 slice
-        fp2 = ctx.func(V2, "V2Parser.parse")
+        fp2 = _F(ctx, V2, "V2Parser.parse")
         sl = [x for x in walk_local(fp2) if isinstance(x, ast.Assign) and slice_parts(x.value) and "calcsize" in src(x.value)]
         ok = False
         for st in sl:
@@ -521,8 +547,8 @@ def check(ctx):
                   f"the allowed v1 protocols are {sorted(allowed)}; TCP4, TCP6 and UNKNOWN must all be accepted (and nothing else)")
     with ctx.section("parsed fields"):
         # source / destination slots
-        fp1 = ctx.func(V1, "V1Parser.parse")
-        fp2 = ctx.func(V2, "V2Parser.parse")
+        fp1 = _F(ctx, V1, "V1Parser.parse")
+        fp2 = _F(ctx, V2, "V2Parser.parse")
         for fp, qq, srcnames, dstnames in ((fp1, Q + "_v1parser.V1Parser.parse", ("sourceAddr", "sourcePort"), ("destAddr", "destPort")),
                                           (fp2, Q + "_v2parser.V2Parser.parse", ("source", "sPort"), ("dest", "dPort"))):
             n_ = 0
@@ -549,8 +575,8 @@ def check(ctx):
         ctx.check(any([src(e) for e in st.targets[0].elts] == ["source", "dest", "sPort", "dPort"] for st in up), "parse/v2-field-order", Q + "_v2parser.V2Parser.parse | <fields>",
                   "the unpacked v2 address block is not read as (source, dest, sPort, dPort)")
     with ctx.section("informational"):
-        fp1 = ctx.func(V1, "V1Parser.parse")
-        fp2 = ctx.func(V2, "V2Parser.parse")
+        fp1 = _F(ctx, V1, "V1Parser.parse")
+        fp2 = _F(ctx, V2, "V2Parser.parse")
         # informational: conversions outside convertError
         loose = []
         for fp, nm in ((fp1, "V1Parser.parse"), (fp2, "V2Parser.parse")):
@@ -629,5 +655,13 @@ SILENT = [
     Silent("v1-terminator-search-limited-to-the-unscanned-tail", V1, "        if len(self.buffer) > 107 and self.NEWLINE not in self.buffer:\n            raise InvalidProxyHeader()\n        lines = (self.buffer).split(self.NEWLINE, 1)\n        if not len(lines) > 1:\n            return (None, None)\n",
            "        if len(self.buffer) > 107 and self.NEWLINE not in self.buffer:\n            raise InvalidProxyHeader()\n"
            "        if self.NEWLINE not in self.buffer[-(len(data) + len(self.NEWLINE) - 1):]:\n            return (None, None)\n        lines = (self.buffer).split(self.NEWLINE, 1)\n"),
+    Silent("sniff-extracted-into-helper", W,
+           "        if parser is None:\n            if (\n                len(data) >= 16\n                and data[:12] == V2Parser.PREFIX\n                and ord(data[12:13]) & 0b11110000 == 0x20\n            ):\n"
+           "                self._parser = parser = V2Parser()\n            elif len(data) >= 8 and data[:5] == V1Parser.PROXYSTR:\n                self._parser = parser = V1Parser()\n"
+           "            else:\n                self.loseConnection()\n                return None\n",
+           "        if parser is None:\n            parser = self._pickParser(data)\n            if parser is None:\n                self.loseConnection()\n                return None\n            self._parser = parser\n",
+           more=[(W, "    def getPeer(self) -> interfaces.IAddress:",
+                  "    def _pickParser(self, data):\n        if len(data) >= 16 and data[:12] == V2Parser.PREFIX and ord(data[12:13]) & 0b11110000 == 0x20:\n            return V2Parser()\n"
+                  "        if len(data) >= 8 and data[:5] == V1Parser.PROXYSTR:\n            return V1Parser()\n        return None\n\n    def getPeer(self) -> interfaces.IAddress:")]),
     Silent("handler-broadened", W, "        except InvalidProxyHeader:\n            self.loseConnection()\n", "        except (InvalidProxyHeader, ValueError):\n            self.loseConnection()\n"),
 ]
